@@ -64,6 +64,8 @@ def body(c):
         flats = rng.sample(flats, cap)
     docs = [gqlgen.tree_from_flat(json.loads(fs), "query") for fs in flats] + \
            [gqlgen.tree_from_flat(json.loads(fs), "mutation") for fs in rng.sample(mflats, min(len(mflats), 150 if c.quick else 2000))]
+    # hand-picked documents reaching a non-null position below every list / nullability wrapping, several worlds each
+    docs += gqlgen.wrapping_docs() * (3 if c.quick else 10)
     dg = gqlgen.DocGen(ts, random.Random(c.seed + 5), max_depth=4, max_items=3, p_dir=0.05)
     nrand = 250 if c.quick else 4000
     while nrand > 0:
